@@ -8,7 +8,7 @@
        reproduces the same cycles, deltas and values.
      refuted statements: each side condition of [tick] is necessary (witnesses replayed on the
        implementation, see docs/notes-delta.md). *)
-Require Import Base DeltaLib Delta.
+Require Import Base DeltaLib DeltaLibFacts Delta.
 From Coq Require Import ZifyBool.
 
 (* ------------------------------------------------------------------ lists *)
@@ -188,8 +188,8 @@ Fixpoint tick (sh : shape) (pre live : node) : Prop :=
   | TSW p _, NWin _ v0, NWin m v1 => m = true /\ exists z, v1 = lastn p (v0 ++ [z])
   | TSS, NSet _ v0 el0 _ _, NSet m v el ad rm =>
       m = true /\ v = true /\ sorted ad /\ sorted rm /\
-      (forall k, mem k ad = true -> mem k el0 = false) /\
-      (forall k, mem k rm = true -> mem k el0 = true) /\
+      Forall (fun k => mem k el0 = false) ad /\
+      Forall (fun k => mem k el0 = true) rm /\
       el = fold_left (fun s k => ins k s) ad (fold_left (fun s k => del k s) rm el0) /\
       (ad <> [] \/ rm <> [] \/ v0 = false)
   | TSD e, NDict _ v0 items0, NDict m v items =>
@@ -323,7 +323,11 @@ Lemma recreates_tss pre live : good TSS pre -> tick TSS pre live -> recreates TS
 Proof.
   destruct pre as [| |m0 v0 el0 ad0 rm0| |]; try contradiction.
   destruct live as [| |m v el ad rm| |]; try contradiction.
-  intros (-> & Hel0 & -> & ->) (-> & -> & Had & Hrm & Hadout & Hrmin & -> & Heff).
+  intros (-> & Hel0 & -> & ->) (-> & -> & Had & Hrm & Hadout' & Hrmin' & -> & Heff).
+  assert (Hadout : forall k, mem k ad = true -> mem k el0 = false).
+  { intros k Hk. rewrite Forall_forall in Hadout'. apply Hadout', mem_In, Hk. }
+  assert (Hrmin : forall k, mem k rm = true -> mem k el0 = true).
+  { intros k Hk. rewrite Forall_forall in Hrmin'. apply Hrmin', mem_In, Hk. }
   unfold recreates. cbn [capture].
   assert (Heffb : has_effect TSS (NSet false v0 el0 [] []) (DSet ad rm) = true).
   { cbn [has_effect nvalid]. destruct Heff as [H|[H|H]].
@@ -1049,3 +1053,303 @@ Proof.
   - apply recreates_tsb. apply wf_tsb_forall in Hwf.
     induction IH as [|f r Hf Hr IHr]; constructor; inversion Hwf; subst; auto.
 Qed.
+
+(* the property's two sentences about one tick *)
+Corollary apply_capture_value sh pre live : wf_shape sh -> good sh pre -> tick sh pre live ->
+  commit sh (apply sh pre (capture sh live)) = commit sh live /\
+  nvalid (apply sh pre (capture sh live)) = nvalid live /\ nmod (apply sh pre (capture sh live)) = nmod live.
+Proof.
+  intros Hwf Hg Ht. destruct (recreates_all sh Hwf pre live Hg Ht) as (A & B & C & D & E & _).
+  repeat split; congruence.
+Qed.
+
+Corollary capture_apply_delta sh pre live : wf_shape sh -> good sh pre -> tick sh pre live ->
+  capture sh (apply sh pre (capture sh live)) = capture sh live.
+Proof. intros Hwf Hg Ht. apply (recreates_all sh Hwf pre live Hg Ht). Qed.
+
+Lemma good_commit_tick sh pre live : wf_shape sh -> good sh pre -> tick sh pre live -> good sh (commit sh live).
+Proof. intros Hwf Hg Ht. apply (recreates_all sh Hwf pre live Hg Ht). Qed.
+
+(* ------------------------------------------------------------------ every tick is observable (so it is recorded) *)
+Lemma tick_flags : forall sh, wf_shape sh -> forall pre live, good sh pre -> tick sh pre live -> nmod live = true /\ nvalid live = true.
+Proof. intros sh Hwf pre live Hg Ht. destruct (recreates_all sh Hwf pre live Hg Ht) as (_ & _ & C & D & _). auto. Qed.
+
+Lemma tick_observable : forall sh, wf_shape sh -> forall pre live, good sh pre -> tick sh pre live ->
+  observable sh live (capture sh live) = true.
+Proof.
+  induction sh as [| |p m| |e IH|n e IH|fs IH] using shape_ind'; intros Hwf pre live Hg Ht.
+  - destruct pre; try contradiction; destruct live; try contradiction. destruct Ht as [-> [z ->]]. reflexivity.
+  - destruct pre; try contradiction; destruct live; try contradiction. destruct Ht as [-> ->]. reflexivity.
+  - destruct (tick_flags _ Hwf _ _ Hg Ht) as [Hm Hv].
+    destruct pre as [|m0 v0| | |]; try contradiction; destruct live as [|m1 v1| | |]; try contradiction.
+    destruct Hg as [_ Hp]. destruct Ht as [-> [z ->]].
+    destruct (lastn_app_last p v0 z Hp) as [l' Hl]. cbn [observable capture nmod]. rewrite Hl, last_opt_app. reflexivity.
+  - destruct pre; try contradiction; destruct live; try contradiction.
+    destruct Ht as (-> & -> & _). reflexivity.
+  - destruct pre; try contradiction; destruct live; try contradiction.
+    destruct Ht as (-> & -> & _). reflexivity.
+  - destruct (tick_flags _ Hwf _ _ Hg Ht) as [Hm Hv].
+    destruct pre as [| | | |m0 v0 kids0]; try contradiction; destruct live as [| | | |m1 v1 kids]; try contradiction.
+    destruct Hg as (-> & Hlen & Hg). destruct Ht as (-> & -> & HF & Hex).
+    change (capture (TSL n e) (NIdx true true kids)) with (DList (tsl_items e 0 kids)).
+    cbn [observable nmod andb].
+    assert (Hvalid : Forall (fun c => nmod c = true -> nvalid c = true) kids).
+    { clear - HF Hwf Hg. induction HF as [|c0 c k0 k Hc HF IHF]; constructor.
+      - inversion Hg; subst. destruct Hc as [[Hm Htk]|Heq]; [|subst c].
+        + intros _. apply (tick_flags e Hwf c0 c); assumption.
+        + intros Hm. rewrite (good_nmod e c0) in Hm by assumption. discriminate.
+      - inversion Hg; subst. apply IHF; assumption. }
+    pose proof (tsl_items_nonempty e 0 kids Hvalid Hex) as Hne.
+    destruct (tsl_items e 0 kids); [congruence|reflexivity].
+  - destruct pre as [| | | |m0 v0 kids0]; try contradiction; destruct live as [| | | |m1 v1 kids]; try contradiction.
+    destruct Hg as (-> & Hg). destruct Ht as (-> & -> & Ht & Hex).
+    change (capture (TSB fs) (NIdx true true kids)) with (DBundle (zipw cap_field fs kids)).
+    cbn [observable andb]. apply wf_tsb_forall in Hwf.
+    revert kids0 kids Hg Ht Hex. induction IH as [|f r Hf Hr IHr]; intros kids0 kids Hg Ht Hex;
+      destruct kids0 as [|c0 k0]; destruct kids as [|c k]; cbn in Hg, Ht; try contradiction.
+    + inversion Hex.
+    + inversion Hwf as [|? ? Wf Wr]; subst. destruct Hg as [Hgc Hgr]. destruct Ht as [Hc Htr].
+      cbn [zipw zipw3 existsb].
+      destruct Hc as [[Hm Htk]|[-> Hne]].
+      * destruct (tick_flags f Wf c0 c Hgc Htk) as [_ Hv].
+        unfold cap_field at 1. rewrite Hm, Hv. cbn [andb]. rewrite (Hf Wf c0 c Hgc Htk). reflexivity.
+      * rewrite (good_nmod _ _ Hgc). cbn [andb orb]. apply (IHr Wr k0 k Hgr Htr).
+        inversion Hex as [? ? Hm|? ? Hex']; subst; [|exact Hex'].
+        rewrite (good_nmod _ _ Hgc) in Hm. discriminate.
+Qed.
+
+(* ------------------------------------------------------------------ record, then replay *)
+(* the replay node, entry by entry (replay_step at cursor i reads entry i) *)
+Definition step_entry (sh : shape) (en : option delta) (out : node) : node :=
+  match en with Some d => apply sh (commit sh out) d | None => commit sh out end.
+
+Fixpoint replay_list (sh : shape) (ens : buffer) (out : node) : list node :=
+  match ens with [] => [] | en :: r => step_entry sh en out :: replay_list sh r (step_entry sh en out) end.
+
+Fixpoint replay_last (sh : shape) (ens : buffer) (out : node) : node :=
+  match ens with [] => out | en :: r => replay_last sh r (step_entry sh en out) end.
+
+Lemma replay_step_entry sh buf i out : (i < length buf)%nat ->
+  replay_step sh buf i out = step_entry sh (nth i buf None) out.
+Proof.
+  intros Hi. unfold replay_step, step_entry. rewrite (nth_error_nth' buf None Hi).
+  destruct (nth i buf None); reflexivity.
+Qed.
+
+Lemma replay_list_app sh a b out :
+  replay_list sh (a ++ b) out = replay_list sh a out ++ replay_list sh b (replay_last sh a out).
+Proof. revert out; induction a as [|en r IH]; intros out; cbn; [reflexivity|]. f_equal. apply IH. Qed.
+
+Lemma replay_last_app sh a b out : replay_last sh (a ++ b) out = replay_last sh b (replay_last sh a out).
+Proof. revert out; induction a as [|en r IH]; intros out; cbn; [reflexivity|]. apply IH. Qed.
+
+(* what a consumer of the replayed output sees, cycle by cycle: a delta when it ticks *)
+Definition stream (sh : shape) (outs : list node) : buffer :=
+  map (fun o => if nmod o then Some (capture sh o) else None) outs.
+
+(* holes: the output just sits there *)
+Lemma replay_holes sh s : good sh s -> forall k out, commit sh out = s ->
+  replay_list sh (repeat None k) out = repeat s k /\ commit sh (replay_last sh (repeat None k) out) = s.
+Proof.
+  intros Hg. induction k as [|k IH]; intros out Ho; cbn [repeat replay_list replay_last step_entry].
+  - split; [reflexivity|exact Ho].
+  - rewrite Ho. destruct (IH s (commit_good _ _ Hg)) as [I1 I2]. rewrite I1, I2. split; reflexivity.
+Qed.
+
+Lemma stream_holes sh s k : good sh s -> stream sh (repeat s k) = repeat None k.
+Proof.
+  intros Hg. unfold stream. induction k as [|k IH]; cbn [repeat map]; [reflexivity|].
+  rewrite (good_nmod _ _ Hg), IH. reflexivity.
+Qed.
+
+Lemma filter_nmod_holes sh s k : good sh s -> filter nmod (repeat s k) = [].
+Proof. intros Hg. induction k as [|k IH]; cbn [repeat filter]; [reflexivity|]. rewrite (good_nmod _ _ Hg). exact IH. Qed.
+
+(* a history: at strictly increasing cycle times, the successive post-tick states of a
+   time-series, each a coherent effective tick of the committed previous one;  [len] is the
+   length the cycle-aligned buffer has reached *)
+Fixpoint chain (sh : shape) (s : node) (len : nat) (h : list (Z * node)) : Prop :=
+  match h with
+  | [] => True
+  | (t, live) :: r =>
+      MIN_ST + Z.of_nat len <= t /\ tick sh s live /\ chain sh (commit sh live) (S (Z.to_nat (t - MIN_ST))) r
+  end.
+
+Definition rec_hist (sh : shape) (h : list (Z * node)) (buf : buffer) : buffer :=
+  fold_left (fun b tl => recorder sh (fst tl) (snd tl) b) h buf.
+
+Lemma replay_record_gen sh : wf_shape sh -> forall h s out buf0,
+  good sh s -> commit sh out = s -> chain sh s (length buf0) h ->
+  exists suffix,
+    rec_hist sh h buf0 = buf0 ++ suffix /\
+    stream sh (replay_list sh suffix out) = suffix /\
+    map (commit sh) (filter nmod (replay_list sh suffix out)) = map (fun tl => commit sh (snd tl)) h /\
+    Forall2 (fun tl o => nth_error (buf0 ++ suffix) (Z.to_nat (fst tl - MIN_ST)) = Some (Some (capture sh (snd tl))))
+            h (filter nmod (replay_list sh suffix out)).
+Proof.
+  intros Hwf. induction h as [|[t live] r IH]; intros s out buf0 Hg Ho Hc.
+  - exists []. cbn. rewrite app_nil_r. repeat split; constructor.
+  - cbn [chain] in Hc. destruct Hc as (Ht & Htk & Hc).
+    destruct (recreates_all sh Hwf s live Hg Htk) as (Rm & Rv & Lm & Lv & Rc & Rcap & Rg).
+    pose proof (tick_observable sh Hwf s live Hg Htk) as Hobs.
+    set (d := capture sh live) in *.
+    set (k := (Z.to_nat (t - MIN_ST) - length buf0)%nat).
+    assert (Hrec : recorder sh t live buf0 = buf0 ++ repeat None k ++ [Some d]).
+    { unfold recorder. rewrite Lm. fold d. rewrite Hobs. reflexivity. }
+    assert (Hlen : length (buf0 ++ repeat None k ++ [Some d]) = S (Z.to_nat (t - MIN_ST))).
+    { rewrite !app_length, repeat_length. cbn [length]. unfold k, MIN_ST in *. lia. }
+    cbn [rec_hist fold_left fst snd]. rewrite Hrec.
+    destruct (replay_holes sh s Hg k out Ho) as [Hh1 Hh2].
+    set (o1 := replay_last sh (repeat None k) out) in *.
+    set (o2 := apply sh (commit sh o1) d).
+    assert (Ho2 : commit sh o2 = commit sh live) by (unfold o2; rewrite Hh2; exact Rc).
+    rewrite <- Hlen in Hc.
+    destruct (IH (commit sh live) o2 (buf0 ++ repeat None k ++ [Some d]) Rg Ho2 Hc) as (suf & S1 & S2 & S3 & S4).
+    exists (repeat None k ++ [Some d] ++ suf).
+    fold (rec_hist sh r (buf0 ++ repeat None k ++ [Some d])). rewrite S1.
+    assert (Hrl : replay_list sh (repeat None k ++ [Some d] ++ suf) out = repeat s k ++ o2 :: replay_list sh suf o2).
+    { rewrite replay_list_app, Hh1. reflexivity. }
+    rewrite Hrl.
+    assert (Hm2 : nmod o2 = true) by (unfold o2; rewrite Hh2; exact Rm).
+    assert (Hc2 : capture sh o2 = d) by (unfold o2; rewrite Hh2; exact Rcap).
+    split; [rewrite <- !app_assoc; reflexivity|]. split; [|split].
+    + unfold stream in *. rewrite map_app. fold (stream sh (repeat s k)). rewrite (stream_holes _ _ _ Hg).
+      cbn [map]. rewrite Hm2, Hc2, S2. reflexivity.
+    + rewrite filter_app, (filter_nmod_holes _ _ _ Hg). cbn [app filter]. rewrite Hm2. cbn [map snd].
+      rewrite Ho2, S3. reflexivity.
+    + rewrite filter_app, (filter_nmod_holes _ _ _ Hg). cbn [app filter]. rewrite Hm2.
+      constructor.
+      * cbn [fst snd]. fold d.
+        assert (Hpos : Z.to_nat (t - MIN_ST) = length (buf0 ++ repeat None k)).
+        { rewrite app_length, repeat_length. unfold k, MIN_ST in *. lia. }
+        cbn [app]. rewrite app_assoc. rewrite Hpos. apply nth_error_app_len.
+      * assert (Heq : (buf0 ++ repeat None k ++ [Some d]) ++ suf = buf0 ++ repeat None k ++ [Some d] ++ suf)
+          by (rewrite <- !app_assoc; reflexivity).
+        rewrite Heq in S4. exact S4.
+Qed.
+
+(* the cursor-driven loop of the replay node (run_replay without the run's end) is [replay_list] *)
+Fixpoint replay_cursor (sh : shape) (buf : buffer) (fuel i : nat) (out : node) : list node :=
+  match fuel with
+  | O => []
+  | S f => if (length buf <=? i)%nat then []
+           else replay_step sh buf i out :: replay_cursor sh buf f (S i) (replay_step sh buf i out)
+  end.
+
+Lemma replay_cursor_list sh suf : forall pfx out,
+  replay_cursor sh (pfx ++ suf) (length suf) (length pfx) out = replay_list sh suf out.
+Proof.
+  induction suf as [|en r IH]; intros pfx out; cbn [length replay_cursor replay_list]; [reflexivity|].
+  assert (Hlt : (length pfx < length (pfx ++ en :: r))%nat) by (rewrite app_length; cbn; lia).
+  destruct (length (pfx ++ en :: r) <=? length pfx)%nat eqn:E; [apply Nat.leb_le in E; lia|].
+  rewrite replay_step_entry by exact Hlt.
+  assert (Hn : nth (length pfx) (pfx ++ en :: r) None = en).
+  { rewrite app_nth2 by lia. rewrite Nat.sub_diag. reflexivity. }
+  rewrite Hn. f_equal.
+  specialize (IH (pfx ++ [en]) (step_entry sh en out)).
+  rewrite <- app_assoc in IH. cbn [app] in IH. rewrite app_length in IH. cbn [length] in IH.
+  rewrite Nat.add_1_r in IH. exact IH.
+Qed.
+
+Theorem replay_record_id_gen sh h : wf_shape sh -> chain sh (fresh sh) 0 h ->
+  let buf := rec_hist sh h [] in
+  let outs := replay_cursor sh buf (length buf) 0 (fresh sh) in
+  stream sh outs = buf /\
+  map (commit sh) (filter nmod outs) = map (fun tl => commit sh (snd tl)) h /\
+  Forall2 (fun tl o => nth_error buf (Z.to_nat (fst tl - MIN_ST)) = Some (Some (capture sh (snd tl)))) h (filter nmod outs).
+Proof.
+  intros Hwf Hc. pose proof (good_fresh sh Hwf) as Hg.
+  destruct (replay_record_gen sh Hwf h (fresh sh) (fresh sh) [] Hg (commit_good _ _ Hg) Hc) as (suf & S1 & S2 & S3 & S4).
+  cbn [app] in S1, S4. cbn zeta. rewrite S1.
+  pose proof (replay_cursor_list sh suf [] (fresh sh)) as Hrc. cbn [app length] in Hrc. rewrite Hrc.
+  repeat split; assumption.
+Qed.
+
+(* ------------------------------------------------------------------ the side conditions are necessary *)
+(* Each statement below is the unconditional version of the round trip, refuted on a concrete
+   history; every witness is replayed on the implementation (docs/notes-delta.md). *)
+
+(* A. a bundle with a never-ticked set field beside a ticking scalar field: apply_delta validates
+      the set field (initialize_tsb_delta_defaults + the empty-tick validation rule) *)
+Definition wA_shape := TSB [TSS; TS].
+Definition wA_live := run_ops wA_shape [mkOp [1] 1 5] (fresh wA_shape).
+Lemma apply_capture_unconditional_refuted_tsb :
+  exists sh pre ops, good sh pre /\
+    let live := run_ops sh ops pre in
+    veq sh live (apply sh pre (capture sh live)) = false.
+Proof. exists wA_shape, (fresh wA_shape), [mkOp [1] 1 5]. split; [apply good_fresh; cbn; auto|vm_compute; reflexivity]. Qed.
+
+(* B. a tick with an empty delta on an already valid set (remove + add of one element): it is
+      observable, so it is recorded, but apply_delta drops it *)
+Definition wB_pre := commit TSS (run_ops TSS [mkOp [] 3 1] (fresh TSS)).
+Lemma replay_same_cycles_unconditional_refuted_empty_tick :
+  exists sh pre ops, good sh pre /\
+    let live := run_ops sh ops pre in
+    nmod live = true /\ observable sh live (capture sh live) = true /\
+    nmod (apply sh pre (capture sh live)) = false.
+Proof.
+  exists TSS, wB_pre, [mkOp [] 4 1; mkOp [] 3 1]. split; [vm_compute; repeat split; exact I|].
+  vm_compute. repeat split.
+Qed.
+
+(* C. a dictionary key whose child never became valid is in the value but not in the delta *)
+Lemma apply_capture_unconditional_refuted_unset_child :
+  exists sh pre ops, good sh pre /\
+    let live := run_ops sh ops pre in
+    veq sh live (apply sh pre (capture sh live)) = false.
+Proof. exists (TSD TS), (fresh (TSD TS)), [mkOp [] 8 3]. split; [apply good_fresh; exact I|vm_compute; reflexivity]. Qed.
+
+(* D. child changed, key erased, key re-inserted in one cycle: the slot's modified_ bit is
+      cleared by the erase and not set again (the child does not notify twice), so the delta
+      omits the change *)
+Definition wD_pre := commit (TSD TSS) (run_ops (TSD TSS) [mkOp [1] 3 10] (fresh (TSD TSS))).
+Lemma apply_capture_unconditional_refuted_reinserted_key :
+  exists sh pre ops, good sh pre /\
+    let live := run_ops sh ops pre in
+    veq sh live (apply sh pre (capture sh live)) = false.
+Proof.
+  exists (TSD TSS), wD_pre, [mkOp [1] 3 12; mkOp [] 7 1; mkOp [] 8 1].
+  split; [|vm_compute; reflexivity].
+  vm_compute. repeat split; try exact I. constructor; [|constructor]. cbn. repeat split; exact I.
+Qed.
+
+(* ------------------------------------------------------------------ the hypotheses are met *)
+Ltac tick_solve :=
+  repeat first
+    [ exact I | reflexivity | discriminate
+    | match goal with
+      | |- _ /\ _ => split
+      | |- exists _, _ => eexists; reflexivity
+      | |- Forall _ [] => apply Forall_nil
+      | |- Forall _ (_ :: _) => apply Forall_cons
+      | |- Forall2 _ [] [] => apply Forall2_nil
+      | |- Forall2 _ (_ :: _) (_ :: _) => apply Forall2_cons
+      | |- _ <> _ => intro; discriminate
+      | |- _ \/ _ => first [ solve [left; tick_solve] | solve [right; tick_solve] ]
+      | |- Exists _ (_ :: _) => first [ solve [apply Exists_cons_hd; tick_solve] | apply Exists_cons_tl ]
+      end ].
+
+(* a dictionary of sets: two keys appear, then one is removed while the other changes (elements
+   added and removed), a gap, then a third key; recorded at cycles 1, 3 and 6 *)
+Definition ex1_sh := TSD TSS.
+Definition ex1_l1 := run_ops ex1_sh [mkOp [1] 3 10; mkOp [2] 3 20] (fresh ex1_sh).
+Definition ex1_l2 := run_ops ex1_sh [mkOp [] 7 1; mkOp [2] 3 21; mkOp [2] 4 20] (commit ex1_sh ex1_l1).
+Definition ex1_l3 := run_ops ex1_sh [mkOp [3] 3 5] (commit ex1_sh ex1_l2).
+Definition ex1_hist := [(1, ex1_l1); (3, ex1_l2); (6, ex1_l3)].
+
+Example ex1_chain : chain ex1_sh (fresh ex1_sh) 0 ex1_hist.
+Proof. vm_compute. tick_solve. Qed.
+
+(* remove and re-add of a key in one cycle (the slot is resurrected with its child), nested
+   dictionaries, a bundle whose set field ticks first, a list, a window, a signal *)
+Definition ex2_sh := TSB [TSD (TSD TS); TSB [TSS; TS]; TSL 2 (TSW 2 1); SIGNAL].
+Definition ex2_l1 := run_ops ex2_sh [mkOp [0; 1; 2] 1 5; mkOp [1; 0] 5 0; mkOp [1; 1] 1 7; mkOp [2; 0] 9 4; mkOp [3] 2 0] (fresh ex2_sh).
+Definition ex2_l2 := run_ops ex2_sh [mkOp [0] 7 1; mkOp [0; 1; 3] 1 6; mkOp [2; 0] 9 5; mkOp [2; 1] 9 6] (commit ex2_sh ex2_l1).
+Definition ex2_l3 := run_ops ex2_sh [mkOp [0; 1] 7 2; mkOp [1; 0] 3 9] (commit ex2_sh ex2_l2).
+Definition ex2_hist := [(2, ex2_l1); (3, ex2_l2); (7, ex2_l3)].
+
+Example ex2_chain : chain ex2_sh (fresh ex2_sh) 0 ex2_hist.
+Proof. vm_compute. tick_solve. Qed.
+
+Example ex2_wf : wf_shape ex2_sh.
+Proof. cbn. repeat split; lia. Qed.
